@@ -182,9 +182,15 @@ def _src(node):
     return ast.unparse(node)
 
 
-def flags_of(names, attrs):
-    """four local flag names -> (field, dir) if they are X1tD, X1rD, X2tD, X2rD of one field/direction"""
+def flags_of(names, attrs, objs=None):
+    """four local flag names -> (field, dir, raw attribute names, object) if they are X1tD, X1rD, X2tD, X2rD of one
+    field/direction read from one object"""
     raw = tuple(attrs.get(nm, ('?' + nm)) for nm in names)
+    if objs is not None:
+        os_ = {objs.get(nm) for nm in names}
+        obj = os_.pop() if len(os_) == 1 else None
+        r = flags_of(names, attrs)
+        return (r[0] if obj is not None else None, r[1], r[2], obj)
     ms = [FLAG_RE.match(r) for r in raw]
     if all(ms):
         f = {m.group(1) for m in ms}
@@ -295,14 +301,16 @@ def walk_kernel(fn, consts, objparams=('panel', 'p', 'p1', 'p2', 'stiff', 's', '
                     if len(args) != 10:
                         raise TranslateError('%s:%d: %s with %d arguments' % (K.name, node.lineno, f, len(args)))
                     names = [_src(a) for a in args]
-                    K.atoms[nm] = Atom(nm, f, d1, names[0], flags_of(names[2:6], K.attrs),
-                                       d2, names[1], flags_of(names[6:10], K.attrs), bounds)
+                    K.atoms[nm] = Atom(nm, f, d1, names[0], flags_of(names[2:6], K.attrs, K.objs),
+                                       d2, names[1], flags_of(names[6:10], K.attrs, K.objs), bounds)
+                    K.atoms[nm].names1, K.atoms[nm].names2 = tuple(names[2:6]), tuple(names[6:10])
                     return
                 if f in POINTFUNCS:
                     names = [_src(a) for a in args]
                     if len(names) != 6:
                         raise TranslateError('%s:%d: %s with %d arguments' % (K.name, node.lineno, f, len(names)))
-                    K.patoms[nm] = PointAtom(nm, POINTFUNCS[f], names[0], names[1], flags_of(names[2:6], K.attrs))
+                    K.patoms[nm] = PointAtom(nm, POINTFUNCS[f], names[0], names[1], flags_of(names[2:6], K.attrs, K.objs))
+                    K.patoms[nm].names = tuple(names[2:6])
                     return
                 if f in ('np.zeros', 'coo_matrix'):
                     if f == 'coo_matrix':
@@ -452,7 +460,7 @@ def atom_lean(at, roles):
         raise TranslateError('atom %s mixes x and y indices' % at.name)
 
     def fld(fl, k):
-        f, d, raw = fl
+        f, d = fl[0], fl[1]
         if f is None or d != dir1:
             return '(.other %d)' % k
         return '.' + f
